@@ -291,6 +291,9 @@ class ExprMixin:
     def load_attr(self, v, attr, st, node=None):
         if isinstance(v, SRef):
             cls = v.cls
+            fc = self.field_consts.get((cls.name, attr))
+            if fc is not None:
+                return [(fc, st)]
             if attr in cls.fields and not isinstance(cls.fields[attr], tuple):
                 self.on_field_access(st, v, attr, 'read', node)
                 return [(self.wrap(cls.fields[attr], self.hload(st, v, attr)), st)]
@@ -303,6 +306,8 @@ class ExprMixin:
             return [(SFunc('classattr', v.name, attr), st)]
         if isinstance(v, SFunc) and v.how == 'module':
             return [(SFunc('modfunc', v.a[0], attr), st)]
+        if isinstance(v, SFunc) and v.how == 'modfunc':
+            return [(SFunc('modfunc', '%s.%s' % (v.a[0], v.a[1]), attr), st)]
         if isinstance(v, (SStr, SVal, STuple, SLit, SSeq)):
             return [(SFunc('method', v, attr), st)]
         raise Unsupported('attribute %s of %r' % (attr, v))
